@@ -2,7 +2,7 @@
     A crash is a process kill: the kernel's file state survives, an in-flight write leaves a prefix.
     Power loss / write-back reordering is outside the statement (the code never calls fsync). *)
 From TB Require Import Base Decimal BencodeModel TorrentModel TorrentProofs PathModel FsModel SolverModel FinderModel RunModel
-                       SolverProofs RunProofs FsProofs FaultProofs PreludeProofs TableProofs Generated GeneratedObligations SystemModel SystemProofs GlueProofs RunExample.
+                       SolverProofs RunProofs FsProofs FaultProofs PreludeProofs TableProofs Generated GeneratedObligations SystemModel SystemProofs GlueProofs RunExample EstablishProofs CompleteProofs RerunProofs SolverModel SearchProofs.
 Local Open Scope N_scope.
 
 (** Every cut-off event sequence of a good program - cut between or in the middle of any
@@ -44,9 +44,32 @@ Proof. exact (whole_run_safe H content export ts ix es ws f0 pool0 s). Qed.
 Theorem C11_validator_steps_are_system_steps sched s s' : sys_run s sched = Some s' -> sreach s s'.
 Proof. exact (sys_run_reach sched s s'). Qed.
 
+(** RESUMABLE.  Run the tool and kill it anywhere - [s1] is ANY reachable state of the system whose
+    steps include faults, cut writes and partial mkdirs - then run it again on the file system it left
+    (fault-free second run, any interleaving, pool [pool2] built afresh): every piece that was stably
+    available before the FIRST run (C02_stably_available_means_recovered) ends in [Success] and is in
+    place.  The killed run cannot have destroyed what an uninterrupted run is guaranteed to recover;
+    by C02_stable_availability_is_invariant the same holds after any number of killed runs. *)
+Theorem C11_rerun_recovers H content es pc wit f0 pool0 s1 pool2 s2 i o :
+  table_functional content es -> wf_piece content pc -> Forall (fun sg => In (ps_entry sg) es) (w_segs pc) ->
+  cr H content pc -> H (piece_bytes content pc) = w_hash pc -> Forall (pad_zero content) (w_segs pc) ->
+  w_segs pc <> [] -> (forall sg, w_segs pc = [sg] -> ps_len sg <> 0) ->
+  alias_free content es f0 -> Forall (pgood content es) pool0 -> avail_stable content es pc wit f0 ->
+  sreach {| s_fs := f0; s_pool := pool0 |} s1 ->
+  Forall (pgood content es) pool2 -> nth_error pool2 i = Some (solve_prog H pc) ->
+  freach {| s_fs := s_fs s1; s_pool := pool2 |} s2 -> nth_error (s_pool s2) i = Some (Ret o) ->
+  o = Success /\ forall sg, In sg (w_segs pc) -> e_pad (ps_entry sg) = false -> holds_seg content (s_fs s2) sg.
+Proof. exact (fun Hfun Hwf Hall Hcr Hhash Hpadz Hne Hone => rerun_recovers H content es Hfun pc Hwf Hall Hcr Hhash Hpadz Hne Hone wit f0 pool0 s1 pool2 s2 i o). Qed.
+
+(** Non-vacuity: the example's piece is stably available, and its run can be killed in the middle of a write. *)
+Example C11_rerun_premises_hold : avail_stable ex_content ex_es ex_pc ex_wit ex_f0 /\
+  exists s, sreach {| s_fs := ex_f0; s_pool := ex_pool |} s /\ s_pool s = [Ret Fault] /\ fs_file (s_fs s) ex_target = Some [7; 0].
+Proof. exact (conj ex_stable ex_reach_cut). Qed.
+
 Print Assumptions C11_cut_traces_are_good.
 Print Assumptions C11_cut_write_is_content.
 Print Assumptions C11_interrupted_bytes_sound.
 Print Assumptions C11_verified_ranges_survive.
 Print Assumptions C11_every_interrupted_state_sound.
 Print Assumptions C11_validator_steps_are_system_steps.
+Print Assumptions C11_rerun_recovers.
